@@ -22,14 +22,22 @@ current code — `entails` on un-normalised constants (F6), `lift` of non-binary
 of `check_timelocks` through `UNSATISFIABLE` (F10), and `lift` refusing policies that
 `check_timelocks` accepts (per-node re-check).  All four were repaired in /repo (`fix:`
 commits); the model follows the repaired code and the theorems hold at full strength
-(`entails_iff`, `concrete_lift_equiv`, `check_timelocks_exact`, `concrete_lift_total`).  No
-finding remains open for this property.
+(`entails_iff`, `concrete_lift_equiv`, `check_timelocks_exact`, `concrete_lift_total`).
+
+Open findings of the faithful model (`is_safe_nonmalleable`, kernel-checked witness below):
+  `TRIVIAL` is given the flag `signed`, so `or(pk, TRIVIAL)` is reported to need a signature:
+  `is_safe_exact_full` is FALSE; proved exact for `TRIVIAL`-free policies
+  (`is_safe_exact_partial`).  The `non-malleable` flag is judged on every run against
+  `Spec.isNonMalleableSpec` (soundness; no theorem) and is unsound for `TRIVIAL` and for `or`
+  with more than two branches.
+  `trivialFree c`    no `TRIVIAL` leaf                                   (Model/Concrete.lean)
 -/
 import MsVerif.Lemmas.PolicyOps
 import MsVerif.Lemmas.PolicyMinKeys
 import MsVerif.Lemmas.PolicyLift
 import MsVerif.Lemmas.PolicyEntails
 import MsVerif.Lemmas.PolicySels
+import MsVerif.Lemmas.PolicySafe
 
 namespace MsVerif.C18
 open MsVerif.Pol MsVerif.Pol.Sem MsVerif.Pol.Conc
@@ -175,6 +183,41 @@ theorem minimum_n_keys_none (p : Policy) :
     | nil => simp
     | cons s ss => rw [hs] at hv; simp at hv
 
+/-- `n_keys` counts the key leaves, repetitions included -/
+theorem n_keys_exact (p : Policy) : nKeys p = keyOccurrences p := nKeys_eq p
+
+/-- every selection is a sub-list of the policy's atoms (so "signatures of a selection" are
+key leaves of the policy) -/
+theorem selections_are_sublists (p : Policy) (s : List Atom) (h : s ∈ sels p) :
+    s.Sublist (atomsOf p) := sels_sublist p s h
+
+/-- against ASSIGNMENTS, all policies: whatever satisfies the policy makes at least
+`minimum_n_keys` key leaves true -/
+theorem minimum_n_keys_lower_bound (p : Policy) (m : Nat) (h : minimumNKeys p = some m)
+    (v : Atom → Bool) (hv : holdsA v p = true) : m ≤ trueKeys v p := by
+  rw [selections_characterise_truth, List.any_eq_true] at hv
+  obtain ⟨s, hs, hall⟩ := hv
+  exact Nat.le_trans (((minimum_n_keys_some p m).mp h).2 s hs) (nSigs_le_trueKeys v p s hs hall)
+
+/-- … and when no key is repeated some satisfying assignment makes exactly that many keys true:
+`minimum_n_keys` is the least number of signing keys over all satisfying assignments -/
+theorem minimum_n_keys_attained (p : Policy) (m : Nat) (h : minimumNKeys p = some m)
+    (hd : ((atomsOf p).filter Atom.isKey).Nodup) :
+    ∃ v, holdsA v p = true ∧ trueKeys v p = m := by
+  obtain ⟨⟨s, hs, hm⟩, _⟩ := (minimum_n_keys_some p m).mp h
+  refine ⟨valOf s, ?_, ?_⟩
+  · rw [selections_characterise_truth, List.any_eq_true]
+    exact ⟨s, hs, by simp [valOf]⟩
+  · have hsub := (sels_sublist p s hs).filter Atom.isKey
+    have := nodup_filter_sublist hd hsub
+    have e : (atomsOf p).filter (fun a => a.isKey && valOf s a)
+        = ((atomsOf p).filter Atom.isKey).filter (fun a => (s.filter Atom.isKey).contains a) := by
+      rw [List.filter_filter]
+      apply List.filter_congr
+      intro a _
+      cases hk : a.isKey <;> simp [hk, valOf, List.contains_eq_mem]
+    rw [trueKeys, e, this, ← hm, nSigs, List.countP_eq_length_filter]
+
 /-! ## T6 — lifting concrete policies -/
 
 /-- the lifted policy has the concrete policy's truth table — every concrete policy (any number
@@ -269,6 +312,30 @@ theorem check_timelocks_former_F10_witnesses :
 "satisfiable path" above is not an artefact of the definition of `selsC`) -/
 theorem concrete_selections_characterise_truth (v : Atom → Bool) (c : CPolicy) :
     holdsC v c = (selsC false c).any (fun s => s.all v) := holdsC_eq_good v c
+
+/-! ## T8 — `is_safe_nonmalleable`, the `signed` flag -/
+
+/-- the specification's SAFE ("every satisfaction needs a signature") is: the policy does not
+hold when nobody signs and everything else is available -/
+theorem safe_spec_characterisation (c : CPolicy) : isSafeSpec c = !holdsC noKeys c :=
+  isSafeSpec_eq c
+
+/-- the property as stated: `signed` ⇔ every satisfaction needs a signature -/
+def is_safe_exact_full : Prop :=
+  ∀ c : CPolicy, WFC c = true → (isSafeNonmalleable c).1 = isSafeSpec c
+
+/-- proved for `TRIVIAL`-free policies.  Missing for the full statement: the library gives
+`TRIVIAL` the flag `signed` (witness below). -/
+theorem is_safe_exact_partial (c : CPolicy) (hw : WFC c = true) (ht : trivialFree c = true) :
+    (isSafeNonmalleable c).1 = isSafeSpec c := by
+  rw [isSafeSpec_eq]; exact safe_exact c hw ht
+
+/-- `or(pk(0), TRIVIAL)` is reported to need a signature although `TRIVIAL` spends it -/
+theorem is_safe_exact_full_false : ¬ is_safe_exact_full := by
+  intro h
+  have := h (.or [.atom (.key 0), .trivial]) (by decide)
+  rw [isSafeSpec_eq, safe_trivial_witness.1, safe_trivial_witness.2] at this
+  simp at this
 
 /-! ## Non-vacuity: the hypotheses are satisfiable by non-trivial values, the functions are
 not constant -/
